@@ -117,6 +117,11 @@ func loadProgram(root string) (*Program, error) {
 	for k, c := range p.cs.Contracts {
 		p.contracts[k] = c
 		if !c.IsLemma {
+			// "func X as name": a second contract on the same body (another property's view of
+			// it); call sites only ever see the un-aliased contract of X
+			if i := strings.Index(k, " as "); i >= 0 {
+				k = k[:i]
+			}
 			fn := p.funcs[k]
 			c.Fn = fn
 		}
